@@ -160,6 +160,13 @@ def _is_own_param(ctx, tt, cf, node, pname):
         return False
     if cf is tt:
         return F.is_name(node, pname)
+    # a closure defined inside to_transposed reads the parameter as a free variable
+    outer_ = cf
+    while getattr(outer_, 'outer', None) is not None:
+        outer_ = outer_.outer
+        if outer_ is tt and F.is_name(node, pname) and pname not in cf.all_params \
+                and not any(isinstance(n_, ast.Name) and n_.id == pname and isinstance(n_.ctx, ast.Store) for n_ in ast.walk(cf.node)):
+            return True
     s_ = src(node)
     # visitor attribute self.x set from a constructor argument that to_transposed passes as pname
     if isinstance(node, ast.Attribute) and F.is_name(node.value, 'self') and cf.cls is not None:
@@ -215,6 +222,10 @@ def r2_delegation(ctx, tt):
                       f'{fmt} is `{src(node)}`')
         enc = b.get('input_encoding')
         ok_enc = isinstance(enc, ast.Attribute) and enc.attr == 'encoding'
+        if not ok_enc and isinstance(enc, ast.Name) and enc.id in cf.all_params and getattr(cf, 'outer', None) is not None:
+            # the string is the parameter of a callback that another method applies to the sub-tokens: what it is called with is not followed
+            raise AnalysisError(f'{at}: transpose() is called inside the callback `{cf.name}` on its parameter `{enc.id}`: what the callback is '
+                                f'applied to is not followed')
         ctx.check(ok_enc, 'R2', at, tt.qualname, 'pitch-encoding-source', 'the transposed string is a sub-token encoding',
                   f'the transposed string is `{src(enc)}`')
     # argument validation raises ValueError before any work
